@@ -48,6 +48,9 @@ checks = {
  "C11": ("exploration", "seeded operation sequences against a reference LRU (with aliasing and a master-secret integrity probe), concurrent histories under the vs kernel checked with porcupine (race build), and connection histories through tiny caches",
    "seq: store/delete/lookup sequences over 5 keys, capacities 1..4 (and larger), compared with a reference LRU after every operation plus a hook-based probe that no session reachable under a key was wiped. conc: 3-4 tasks on one cache, kernel-chosen pre-emption at the cache mutex, porcupine linearizability check, race detector. conn: honest connection histories through client/server caches of capacity 1..3 must all succeed.",
    "Trusted: the reference LRU semantics stated in the evidence; porcupine Unknown = infrastructure error.", "5/C11"),
+ "C10": ("exploration", "seeded histories of connections, restarts, reconfigurations, forged ids and ruined handshakes over one client and several real servers, judged by a reference model of the caches",
+   "Each history mixes connects (handshake+echo), server cache loss, client/server suite changes, a scripted client offering a forged id, and handshakes ruined by a transport cut; with/without client certificates; both stacks. Oracle: DidResume on both sides equals the model's prediction, every honest connection succeeds (transparent fallback), resumed connections keep the peer identity and have fresh randoms/Finished, session ids are 32 bytes and unique, a session offered in a failed handshake is not offered again (checked on the wire).",
+   "Trusted: the cache model (large capacities); negotiation model of C01.", "5/C10"),
 }
 not_applicable = {
  "C14": "pure function of its input (marshal/unmarshal): no schedule, clock, transport, peer or history enters; input generation is not a simulation target (DESIGN.md section 7). What the simulator sees of the codec is covered under C03/C04/C09.",
